@@ -103,6 +103,19 @@ SpansOK ==
                     \/ Dis("postfix_capture_span_unsafe", [caps |-> O.part.post_caps, post |-> O.part.post])
                /\ (pp.st = "ok" => CapsMatch(O.part.post, pp.toks, O.part.post_caps))
                     \/ Dis("postfix_capture_span_not_token", [caps |-> O.part.post_caps, post |-> O.part.post]))
+         (* the same for the postfix of a glob that owns its expression (into_owned, str::parse): its spans index ITS text *)
+         /\ ((O.part.own_ok /\ O.part.own_has_post) =>
+               LET po == Parse(O.part.own_post) IN
+               /\ (\A i \in DOMAIN O.part.own_post_caps : SpanSafe(O.part.own_post, <<O.part.own_post_caps[i][2], O.part.own_post_caps[i][3]>>))
+                    \/ Dis("owned_postfix_capture_span_unsafe", [caps |-> O.part.own_post_caps, post |-> O.part.own_post])
+               /\ (po.st = "ok" => CapsMatch(O.part.own_post, po.toks, O.part.own_post_caps))
+                    \/ Dis("owned_postfix_capture_span_not_token", [caps |-> O.part.own_post_caps, post |-> O.part.own_post]))
+         /\ ((O.part.par_ok /\ O.part.par_has_post) =>
+               LET po == Parse(O.part.par_post) IN
+               /\ (\A i \in DOMAIN O.part.par_post_caps : SpanSafe(O.part.par_post, <<O.part.par_post_caps[i][2], O.part.par_post_caps[i][3]>>))
+                    \/ Dis("owned_postfix_capture_span_unsafe", [caps |-> O.part.par_post_caps, post |-> O.part.par_post])
+               /\ (po.st = "ok" => CapsMatch(O.part.par_post, po.toks, O.part.par_post_caps))
+                    \/ Dis("owned_postfix_capture_span_not_token", [caps |-> O.part.par_post_caps, post |-> O.part.par_post]))
 
 (* ------------------------------------------------------------------ C05 *)
 Total ==
